@@ -13,9 +13,12 @@
 (*              long gap: a lone ESC + silence = exactly one Escape and     *)
 (*              parsing resumes from ground; ESC + prompt bytes = never     *)
 (*              Escape.  Not applied when Close was requested early.        *)
+(*              The logged input marks a silence that fell between the      *)
+(*              bytes of one scalar as GapInside: bytes had followed        *)
+(*              promptly, it decides nothing (ParserLifeInput).             *)
 (* A scenario whose schedule the code could not follow (drift) is skipped   *)
 (* and counted; it is a model-conformance matter, not a verdict.            *)
-EXTENDS VT500, TLC, Json, IOUtils
+EXTENDS ParserLifeInput, TLC, Json, IOUtils
 
 Trace == ndJsonDeserialize(IOEnv.TRACE)
 VARIABLES l
@@ -24,7 +27,7 @@ Init == l = 1
 EofCount(items) == LET F[k \in 0..Len(items)] == IF k = 0 THEN 0 ELSE F[k-1] + (IF items[k].t = "eof" THEN 1 ELSE 0)
                    IN F[Len(items)]
 
-Accepts(e) == \E p \in RunSet({Init0}, e.in) : Match(Explode(e.items, <<>>), p.out)
+Accepts(e) == \E p \in RunSet({Init0}, Wire(e.in)) : Match(Explode(e.items, <<>>), p.out)
 
 Why(e) ==
   IF e.drift # "" THEN "drift"
@@ -32,7 +35,7 @@ Why(e) ==
   ELSE IF e.hang # "" THEN "hang"
   ELSE IF ~e.closed \/ EofCount(e.items) # 1 THEN "end-marker"
   ELSE IF ~e.kept THEN "retention"
-  ELSE IF ~e.early /\ ~e.ambig /\ Constrained({Init0}, e.in) /\ ~Accepts(e) THEN "timing"
+  ELSE IF ~e.early /\ ~e.ambig /\ Constrained({Init0}, Wire(e.in)) /\ ~Accepts(e) THEN "timing"
   ELSE "ok"
 
 Next ==
@@ -44,7 +47,7 @@ Next ==
         IF w = "ok" THEN TRUE
         ELSE IF w = "drift" THEN PrintT("DRIFT " \o ToJson([scn |-> e.scn, what |-> e.drift]))
         ELSE PrintT("REJECT " \o ToJson([scn |-> e.scn, line |-> l, why |-> w, detail |-> e.panic \o e.hang,
-                      at |-> IF w = "timing" THEN Diverge(Explode(e.items, <<>>), Run(Init0, e.in).out, "") ELSE <<>>]))
+                      at |-> IF w = "timing" THEN Diverge(Explode(e.items, <<>>), Run(Init0, Wire(e.in)).out, "") ELSE <<>>]))
      ELSE TRUE
 
 Spec == Init /\ [][Next]_<<l>>
